@@ -52,18 +52,22 @@ def takeNat : List Char → Nat → Nat → Nat × Nat × List Char
   | c :: cs, acc, n =>
     if isDigit c then takeNat cs (acc * 10 + digitVal c) (n + 1) else (acc, n, c :: cs)
 
+/-- `digits[.digits]`: (integer part, fraction digits as a number, number of fraction digits, rest) -/
+def parseUnsigned (s : List Char) : Option (Nat × Nat × Nat × List Char) :=
+  match takeNat s 0 0 with
+  | (ip, n, s2) =>
+    if n = 0 then none else
+    match s2 with
+    | '.' :: t =>
+      match takeNat t 0 0 with
+      | (fr, m, s3) => if m = 0 then none else some (ip, fr, m, s3)
+    | _ => some (ip, 0, 0, s2)
+
 /-- `[-]digits[.digits]` -/
 def parseMant (s : List Char) : Option (Bool × Nat × Nat × Nat × List Char) :=
-  let (neg, s1) := match s with
-    | '-' :: t => (true, t)
-    | _ => (false, s)
-  let (ip, n, s2) := takeNat s1 0 0
-  if n = 0 then none else
-  match s2 with
-  | '.' :: t =>
-    let (fr, m, s3) := takeNat t 0 0
-    if m = 0 then none else some (neg, ip, fr, m, s3)
-  | _ => some (neg, ip, 0, 0, s2)
+  match s with
+  | '-' :: t => (parseUnsigned t).map fun r => (true, r.1, r.2.1, r.2.2.1, r.2.2.2)
+  | _ => (parseUnsigned s).map fun r => (false, r.1, r.2.1, r.2.2.1, r.2.2.2)
 
 /-- optional `e[-]digits` -/
 def parseExp (s : List Char) : Int × List Char :=
